@@ -18,7 +18,7 @@ def mutate_text(rng, text):
     lines = text.split('\n')
     body = [i for i, l in enumerate(lines) if l.strip() and not l.strip().startswith('#')]
     k = rng.choice(['delete', 'duplicate', 'swap', 'rename', 'truncate', 'indent', 'scalar2seq', 'scalar2map', 'badhex', 'range', 'empty', 'dupid', 'alias', 'multidoc',
-                    'missing', 'emptyfile', 'noise', 'tab', 'flow', 'longscalar', 'nullvalue', 'delblock', 'dupvalue', 'dupvalue', 'extrakey', 'extrakey'])
+                    'missing', 'emptyfile', 'noise', 'tab', 'flow', 'longscalar', 'nullvalue', 'delblock', 'dupvalue', 'dupvalue', 'extrakey', 'extrakey', 'emptyelem'])
     if k == 'missing':
         return None, k
     if k == 'emptyfile':
@@ -101,6 +101,18 @@ def mutate_text(rng, text):
         val = rng.choice(['x', '0x01', '[w1, w2]', '{a: b}', '[w1, w2', '{a: b', '[a, [b, c]', '{a: {b: c}', 'a: b: c', '[1, 2]]', '"unterminated', '[', '{', '- x',
                           '\n' + ind + '  - w1\n' + ind + '  - w2', '\n' + ind + '  a: 1\n' + ind + '  b: [1, 2', '\n' + ind + '    k: v\n' + ind + '  j: w', '!!binary |\n' + ind + '  ====', '&a [*a]'])
         lines.insert(i + 1, ind + rng.choice(['extra', 'wagons', 'note', 'length', 'id', 'type']) + ': ' + val)
+    elif k == 'emptyelem':
+        # a list element (with everything that belongs to it) is replaced by an empty / scalar / null element: "- {}", "- []", "- ~", "-", "- x"
+        items = [j for j in body if lines[j].lstrip().startswith('- ')]
+        if items:
+            j = rng.choice(items)
+            ind = len(lines[j]) - len(lines[j].lstrip())
+            e = j + 1
+            while e < len(lines) and (not lines[e].strip() or len(lines[e]) - len(lines[e].lstrip()) > ind):
+                e += 1
+            lines[j:e] = [' ' * ind + rng.choice(['- {}', '- []', '- ~', '-', '- x', '- {}', '- {id: }', '- ""'])]
+        else:
+            lines.insert(i, '- {}')
     elif k == 'alias':
         lines[i] = l.replace(': ', ': &anc ', 1) if rng.random() < 0.5 else (l.split(':', 1)[0] + ': *anc' if ':' in l else '- *anc')
     elif k == 'multidoc':
